@@ -283,6 +283,19 @@ def run(model, rep, tier):
               "types = set([rdataset.rdtype for rdataset in node.rdatasets]) | mandatory_types" in t and "windows = Bitmap.from_rdtypes(list(types))" in t, "R-15.4", an.qualname, where(an, an.node),
               "bitmap = types present at the node + RRSIG + NSEC", "NSEC type bitmap composition changed", stmt="bitmap")
     rep.assume("hashlib digests and base64.b32encode are trusted; numeric results (key tags, digests, bitmap octets) are not computed")
+    bm = model.func("dns.rdtypes.util.Bitmap.from_rdtypes")
+    sl = [x for x in ast.walk(bm.node) if isinstance(x, ast.Subscript) and isinstance(x.slice, ast.Slice) and isinstance(x.slice.upper, ast.Name) and src(x.slice.lower or ast.Constant(0)) in ("0", "None")]
+    lens = {x.slice.upper.id for x in sl}
+    if len(lens) != 1:
+        rep.blind("R-15.4", bm.qualname, where(bm, bm.node), f"window length variable of `bitmap[0:<n>]` not identified: {sorted(lens)}", stmt="window-length")
+    else:
+        L = lens.pop()
+        sets_ = [n for n in ast.walk(bm.node) if isinstance(n, (ast.Assign, ast.AugAssign)) and src(n.targets[0] if isinstance(n, ast.Assign) else n.target) == L]
+        carry = [n for n in sets_ if isinstance(n, ast.AugAssign) or any(isinstance(x, ast.Name) and x.id == L for x in ast.walk(n.value))]
+        in_loop = [n for n in sets_ if any(any(y is n for y in ast.walk(lp_)) for lp_ in ast.walk(bm.node) if isinstance(lp_, ast.For))]
+        rep.check(not carry and bool(in_loop), "R-15.4", bm.qualname, where(bm, carry[0] if carry else bm.node), f"the window length `{L}` is recomputed from the current type alone (types are sorted, so the last one of a window is its highest)",
+                  f"`{src(carry[0])[:50]}` carries the window length over from earlier types: a later window inherits the length of a longer earlier one and the NSEC/NSEC3/CSYNC bitmap gets trailing zero octets "
+                  "(forbidden by RFC 4034 4.1.2; the canonical form differs)" if carry else "the window length is not set per type", stmt="window-length")
     rep.meta["explanation"] = (
         "Per-type dataflow of the `canonicalize`/`compress` parameters of _to_wire (through super() chains and helper codecs) into every embedded-name encoder call, compared with the "
         "RFC 4034 6.2 / RFC 6840 5.1 table held in the checker; plus ordered composition checks of the RRSIG signing input, DS, NSEC3 and ZONEMD digests and of the NSEC walk. "
@@ -290,6 +303,8 @@ def run(model, rep, tier):
 
 
 WITNESSES = [
+    {"id": "c15-bitmap-window-length-carried-over", "rule": "R-15.4", "file": "dns/rdtypes/util.py", "expect": "fires",
+     "old": "            octets = byte + 1", "new": "            octets = max(octets, byte + 1)"},
     {"id": "c15-origin-labels-not-folded", "rule": "R-15.5", "file": "dns/name.py", "expect": "fires",
      "old": "                for label in origin.labels:\n                    out.append(len(label))\n                    if canonicalize:\n                        out += label.lower()\n                    else:\n                        out += label\n",
      "new": "                out += origin.to_wire()\n"},
